@@ -261,3 +261,31 @@ def lemma_be_increment(a: bytes, b: bytes, i: int, n: int) -> None:
 def lemma_le128_frame(a: bytes, b: bytes, k: int) -> None:
     if k > 0:
         lemma_le128_frame(a, b, k - 1)
+
+
+def lemma_div_step(v: int, b: int, p: int, l: int) -> None:
+    """(v div b) * (b * p) + l + (v mod b) * p == v * p + l   - the digit-extraction step of a positional encoding."""
+    pass
+
+
+# ---- composition lemmas: what the spec parser sees in identifier ++ length ++ content built from parts
+def lemma_id_low(f: int, rest: bytes) -> None:
+    pass
+
+
+def lemma_id_high(f: int, t: bytes, rest: bytes) -> None:
+    lemma_b128end_find(t, 0, len(t) - 1)
+    lemma_b128end_prefix(t, rest, 0)
+    lemma_b128_prefix(t, rest, 0, len(t))
+
+
+def lemma_len_short(i: bytes, n: int, content: bytes) -> None:
+    assert cat(i, seq1(n), content)[len(i)] == n
+    assert drop(cat(i, seq1(n), content), len(i) + 1) == content
+
+
+def lemma_len_long(i: bytes, r: bytes, content: bytes) -> None:
+    lemma_be_prefix(r, content, 0, len(r))
+    assert cat(i, seq1(128 + len(r)), r, content)[len(i)] == 128 + len(r)
+    assert cat(i, seq1(128 + len(r)), r, content)[len(i) + 1] == r[0]
+    assert drop(cat(i, seq1(128 + len(r)), r, content), len(i) + 1 + len(r)) == content
